@@ -16,6 +16,16 @@
 // Server.SetStrictConflicts), ROLLBACK discards it. Outside an explicit transaction every statement
 // runs on a fresh clone that is committed atomically if the statement succeeds.
 //
+// Supported protocol: startup without TLS (an SSLRequest is answered 'N'), no authentication,
+// CancelRequest (ignored); the extended query flow (Parse, Describe statement/portal, Bind with
+// binary or text parameters and result format codes, Execute, Close, Flush, Sync; per-connection
+// prepared statements; pipelining and pgx batches) and the simple query flow for
+// BEGIN/COMMIT/ROLLBACK, SAVEPOINT/ROLLBACK TO/RELEASE, SET, SELECT 1, DEALLOCATE, DISCARD ALL, empty
+// queries and registered statements without parameters. Anything else is answered with SQLSTATE
+// 42601 and the SQL text. Not supported: COPY, LISTEN/NOTIFY, cursors/row limits in Execute,
+// client-side interpolated arguments (PreferSimpleProtocol), atomicity of a multi-statement batch
+// outside a transaction block (every statement commits on its own).
+//
 // For fault injection and crash enumeration a hook (Server.SetHook) is called for every statement,
 // BEGIN, COMMIT and ROLLBACK in a global sequence order and may fail the statement or drop the
 // connection before/after executing it.
@@ -240,9 +250,12 @@ func (s *Server) SetState(st State) {
 }
 
 // SetHook installs h, which is called for every statement/begin/commit/rollback in global sequence
-// order (Seq counts from 1); nil = always Proceed. The hook runs on the server goroutine of the
-// connection while all other connections' statements are held back, so it must not wait for
-// database activity of other connections.
+// order (Seq counts from 1); nil = always Proceed. Events are generated for executions of registered
+// queries ("stmt") and for BEGIN/COMMIT/ROLLBACK; not for utility statements (SET, SELECT 1,
+// SAVEPOINT ..., DEALLOCATE, ...), not for Parse/Bind/Describe, and not for statements refused with
+// 25P02 because the transaction is in the failed state. The hook runs on the server goroutine of
+// the connection while all other connections' statements are held back, so it must not wait for
+// database activity of other connections. It may call State, Seq and SetHook, but not SetState.
 func (s *Server) SetHook(h func(Event) Action) {
 	s.stMu.Lock()
 	s.hook = h
